@@ -246,7 +246,7 @@ func tsRunOn(st *gosym.State, in *tsmini.Interp, s *corpus.Spec, toks, vals []*g
 	in.SetGlobal("verifLog", &tsmini.Array{})
 	in.SetGlobal("verifRequests", gosym.ConstInt(64, 0))
 	in.SetGlobal("verifUseIdx", gosym.BoolT(useIdx))
-	res := in.Call("Parser", "")
+	res := in.Call("Parser", strings.Repeat("x", len(toks)))
 	out.Log, out.Requests = tsLog(in), tsInt(in.Global("verifRequests"))
 	switch r := res.(type) {
 	case *tsmini.Object:
@@ -416,8 +416,13 @@ func (c *Ctx) tsParseJob(eng *gosym.Engine, s *corpus.Spec, tsPath string, N, mo
 	cfg := eng.Cfg
 	vlog("start %s", name)
 	rep := eng.ExploreFunc(name, func(st *gosym.State) {
-		toks := make([]*gosym.Term, N)
-		vals := make([]*gosym.Term, N)
+		n := N
+		if N > 0 && st.Branch(st.Fresh("empty", 0)) {
+			// the empty text: the very first request meets the end of input at position 0
+			n = 0
+		}
+		toks := make([]*gosym.Term, n)
+		vals := make([]*gosym.Term, n)
 		for i := range toks {
 			toks[i] = st.Fresh("c", 64)
 			vals[i] = st.Fresh("v", 64)
@@ -479,6 +484,9 @@ func (n *nativeAsserter) Cover(string) {}
 func (c *Ctx) confirmTS(prog *tsmini.Program, s *corpus.Spec, ref *specRef, v gosym.Violation, N, mode int, key string) {
 	dir := c.Scratch()
 	var toks, vals []int64
+	if v.Model["empty!0"] != 0 {
+		N = 0
+	}
 	for i := 0; i < N; i++ {
 		toks = append(toks, int64(v.Model[fmt.Sprintf("c!%d", i)]))
 		vals = append(vals, int64(v.Model[fmt.Sprintf("v!%d", i)]))
@@ -529,7 +537,7 @@ func runNode(dir string, prog *tsmini.Program, s *corpus.Spec, toks, vals []int6
   let logged = false; const ce = console.error; console.error = function(){ logged = true; };
   let out = {};
   try {
-    const r = Parser("");
+    const r = Parser(verifInputText());
     if (r === null || r === undefined) { out.kind = logged ? 1 : 4; }
     else { out.kind = 0; out.val = String(%s); }
   } catch (e) { out.kind = 3; out.msg = String(e); }
